@@ -398,25 +398,21 @@ func checkDeadlines(run *Run, e *RealEnd, tv *TapView) {
 		}
 		return v
 	}
-	// walk the call log, tracking stream offsets
+	// walk the call log, tracking stream offsets; what counts is the deadline ARMED on the transport when
+	// the first Write of a frame is made (a library may skip redundant SetWriteDeadline calls, it may not
+	// write a frame under another deadline)
 	var off int64
-	lastSet := int64(-2)
-	lastSetStep := uint64(0)
-	setSince := false
 	fi := 0
 	frames := tv.Frames
 	for _, c := range calls {
 		switch c.Op {
-		case 'w':
-			if c.Err == 0 {
-				lastSet, lastSetStep, setSince = c.Arg, c.Step, true
-			}
 		case 'W':
 			start := off - head
 			off += int64(c.N)
 			if start < 0 || c.N == 0 {
 				continue
 			}
+			lastSet, lastSetStep := c.Dl, c.Step
 			// does a frame start inside this Write? (a prepared message may put several frames into one Write)
 			checked := false
 			for fi < len(frames) && int64(frames[fi].Start) < start+int64(c.N) {
@@ -426,10 +422,6 @@ func checkDeadlines(run *Run, e *RealEnd, tv *TapView) {
 					continue
 				}
 				checked = true
-				if !setSince {
-					run.fail("C10", "no-deadline-set", "frame", "%s: the frame at stream offset %d was written without a SetWriteDeadline call since the previous frame", who, f.Start)
-					return
-				}
 				var want int64
 				var desc string
 				if f.IsControl() {
@@ -453,9 +445,7 @@ func checkDeadlines(run *Run, e *RealEnd, tv *TapView) {
 				}
 				run.Obligations++
 			}
-			if checked {
-				setSince = false
-			}
+			_ = checked
 		}
 	}
 }
